@@ -200,7 +200,9 @@ def frame_obligations():
                     root = root.value
                 if isinstance(root, ast.Name) and root.id in alias:
                     for t in st.targets:
-                        for e in ast.walk(t):
+                        # only a BINDING (x = self.coeffs, a, b = self.kvs) creates an alias; `f.attr = self.attr` stores into f, it does
+                        # not make f an alias of self
+                        for e in ([t] if isinstance(t, ast.Name) else (t.elts if isinstance(t, (ast.Tuple, ast.List)) else [])):
                             if isinstance(e, ast.Name):
                                 alias.add(e.id)
         bad = []
